@@ -24,6 +24,7 @@ type CExpr struct {
 	ast       ast.Expr
 	Line      int
 	GhostOnly string // clause about this ghost only: skipped for loops that never update it
+	Auto      bool   // derived by the verifier (a termination measure read off a loop guard), not written
 	Tagged    bool   // the clause names its properties itself (requires[Cxx] ...)
 	Global    bool   // "requires global E": E is an invariant of package-level state that holds whenever no
 	// writer of that state is running: assumed at entry, not an obligation of the callers
